@@ -13,6 +13,8 @@ def run():
     tok_model(acc, ["E"], 5, invariants=["Fixpoint"], expect_violation="Fixpoint")   # the open finding C11-token-ends-in-hyphen at model level ("1-.\na")
     tok_replay(v, acc, ["E", "A", "F", "I"], 5 if th else 4)
     tok_replay(v, acc, ["G"], 6 if th else 5)
+    tok_model(acc, ["K"], 5 if th else 4)       # words that begin with a multi-byte letter, upper and lower case
+    tok_replay(v, acc, ["K", "D"], 5 if th else 4)
     pad_leg(v, acc)                                       # the read buffer under the tokenizer: multi-byte text at every alignment
     recs, lines = trace_leg(v, acc, "c11", [PID])
     ps = [r for r in lines if r.get("ev") == "pair"]
